@@ -121,6 +121,19 @@ class C15(core.Check):
         ):
             out.append({"f": tag, "args": "caller-names", "ctx": "once", "stmts": gen.prog_with_inputs(["a", "c"], pre + body),
                         "inputs": ["a", "c"], "outputs": ["r1", "x0"] if "self" not in tag else ["r1"]})
+        # a Signal parameter named like a compile-time int of the caller (int variable / loop iterator)
+        thr = ("func", "thresh", [("Signal", "j"), ("int", "base")], [], B("*", B("+", V("j"), V("base")), I(2)))
+        thk = ("func", "thk", [("Signal", "kk"), ("int", "n")], [], B("-", B("*", V("kk"), V("n")), V("kk")))
+        out.append({"f": "int-clash-loop", "args": "caller-names", "ctx": "loop",
+                    "stmts": gen.prog_with_inputs(["a", "c"], [thr, ("for", "j", ("range", 0, 3, None),
+                              [("place", "e", "small-lamp", B("+", V("j"), I(30)), I(24), None),
+                               ("prop", "e", "enable", B(">", ("call", "thresh", [V("a"), V("j")]), I(6)))])]),
+                    "inputs": ["a", "c"], "outputs": []})
+        out.append({"f": "int-clash-var", "args": "caller-names", "ctx": "once",
+                    "stmts": gen.prog_with_inputs(["a", "c"], [("decl", "int", "kk", I(5)), thk,
+                              ("decl", "Signal", "r1", ("call", "thk", [V("a"), V("kk")])),
+                              ("decl", "Signal", "r2", ("call", "thk", [B("+", V("c"), I(1)), I(3)]))]),
+                    "inputs": ["a", "c"], "outputs": ["r1", "r2"]})
         for name, body in ENTITY_PROGS.items():
             out.append({"f": name, "args": "-", "ctx": "entity", "stmts": gen.prog_with_inputs(["a"], body),
                         "inputs": ["a"], "outputs": []})
